@@ -520,4 +520,229 @@ Section WarcProofs.
     intros recs rs n fuel Hi Hwf Hrem Hn Hf.
     apply warc_read_all_ok; auto.
   Qed.
+
+  (* ------------------------------------------------------------ no silent loss / resynchronisation *)
+  Lemma hline_conserve : forall fuel rs out consumed nstart, rinv rs ->
+    match hline fuel rs out consumed nstart with
+    | LineOk _ line c out' rs' => out' ++ rem rs' = out ++ rem rs /\ rinv rs'
+    | LineEnd _ rs' => out = [] /\ rem rs = []
+    | LineErr _ _ => True
+    end.
+  Proof.
+    induction fuel as [|fuel IH]; intros rs out consumed nstart Hi; cbn [WarcDefs.hline].
+    - destruct (find_from out nstart); auto.
+    - destruct (find_from out nstart); [auto|].
+      destruct (rread_spec rs warc_kRead Hi kread_pos) as [got [rs' [HR [Hrem [_ [Hz Hi']]]]]].
+      unfold WarcDefs.read_more. rewrite HR.
+      destruct got as [|g got].
+      + destruct out; [|exact I]. split; [reflexivity|]. apply Hz. reflexivity.
+      + specialize (IH rs' (out ++ g :: got) consumed (length out) Hi').
+        destruct (hline fuel rs' (out ++ g :: got) consumed (length out)) as [line c out' rs''|rs''|e]; auto.
+        * destruct IH as [H1 H2]. split; [|exact H2]. rewrite H1, <- app_assoc, <- Hrem. reflexivity.
+        * destruct IH as [H1 _]. destruct out; discriminate.
+  Qed.
+
+  Lemma header_conserve : forall fuel lfuel rs out consumed line seen len0, rinv rs ->
+    match header_loop fuel lfuel rs out consumed line seen len0 with
+    | HdrOk _ rs' out' c len => out' ++ rem rs' = out ++ rem rs /\ rinv rs'
+    | HdrErr _ _ => True
+    end.
+  Proof.
+    induction fuel as [|fuel IH]; intros lfuel rs out consumed line seen len0 Hi; destruct line as [|l0 line]; cbn [WarcDefs.header_loop].
+    - destruct seen; auto.
+    - exact I.
+    - destruct seen; auto.
+    - pose proof (hline_conserve lfuel rs out consumed consumed Hi) as HL.
+      destruct (hline lfuel rs out consumed consumed) as [line' c out' rs'|rs'|e]; auto.
+      destruct HL as [HL1 HL2].
+      destruct (is_content_length line').
+      + destruct seen; [exact I|].
+        destruct (strtoll (skipn (consumed + length warc_cl_name) out')) as [v used].
+        destruct ((warc_reject_nodigit && Nat.eqb used 0) || negb (Nat.eqb used (length line' - length warc_cl_name))); [exact I|].
+        destruct (warc_reject_negative && (v <? 0)); [exact I|].
+        specialize (IH lfuel rs' out' c line' true v HL2).
+        destruct (header_loop fuel lfuel rs' out' c line' true v) as [rs2 out2 c2 len2|e2]; auto.
+        destruct IH as [H1 H2]. split; [rewrite H1; exact HL1|exact H2].
+      + specialize (IH lfuel rs' out' c line' seen len0 HL2).
+        destruct (header_loop fuel lfuel rs' out' c line' seen len0) as [rs2 out2 c2 len2|e2]; auto.
+        destruct IH as [H1 H2]. split; [rewrite H1; exact HL1|exact H2].
+  Qed.
+
+  Lemma read_exact_conserve : forall fuel rs out total, rinv rs -> Z.of_nat (length out) <= total ->
+    match read_exact fuel rs out total with
+    | inl (rec, rs') => rec ++ rem rs' = out ++ rem rs /\ rinv rs'
+    | inr _ => True
+    end.
+  Proof.
+    induction fuel as [|fuel IH]; intros rs out total Hi Hle; cbn [WarcDefs.read_exact].
+    - destruct (Z.of_nat (length out) =? total); auto.
+    - destruct (Z.of_nat (length out) =? total) eqn:E; [auto|].
+      assert (Hn : (0 < Z.to_N (total - Z.of_nat (length out)))%N) by lia.
+      destruct (rread_spec rs _ Hi Hn) as [got [rs' [HR [Hrem [Hlen [_ Hi']]]]]].
+      rewrite HR. destruct got as [|g got]; [exact I|].
+      assert (Hle' : Z.of_nat (length (out ++ g :: got)) <= total).
+      { rewrite app_length. unfold len in Hlen. lia. }
+      specialize (IH rs' (out ++ g :: got) total Hi' Hle').
+      destruct (read_exact fuel rs' (out ++ g :: got) total) as [[rec rs3]|e]; auto.
+      destruct IH as [H1 H2]. split; [|exact H2]. rewrite H1, <- app_assoc, <- Hrem. reflexivity.
+  Qed.
+
+  (* the body length taken from the header is never negative (the fix of the
+     accepted "Content-Length: -4"): it is the value of the regenerated flag *)
+  Lemma header_len_nonneg : forall fuel lfuel rs out consumed line seen len0, 0 <= len0 ->
+    match header_loop fuel lfuel rs out consumed line seen len0 with
+    | HdrOk _ _ _ _ len => 0 <= len
+    | HdrErr _ _ => True
+    end.
+  Proof.
+    induction fuel as [|fuel IH]; intros lfuel rs out consumed line seen len0 Hl; destruct line as [|l0 line]; cbn [WarcDefs.header_loop].
+    - destruct seen; auto.
+    - exact I.
+    - destruct seen; auto.
+    - destruct (hline lfuel rs out consumed consumed) as [line' c out' rs'|rs'|e]; auto.
+      destruct (is_content_length line').
+      + destruct seen; [exact I|].
+        destruct (strtoll (skipn (consumed + length warc_cl_name) out')) as [v used].
+        destruct ((warc_reject_nodigit && Nat.eqb used 0) || negb (Nat.eqb used (length line' - length warc_cl_name))); [exact I|].
+        change warc_reject_negative with true. cbn [andb].
+        destruct (v <? 0) eqn:Ev; [exact I|]. apply IH. lia.
+      + apply IH. exact Hl.
+  Qed.
+
+  Definition ends_with_trailer (r : list Z) : Prop := exists x, r = x ++ warc_trailer.
+
+  Lemma list_eqb_eq a : forall b, list_eqb a b = true -> a = b.
+  Proof.
+    induction a as [|x a IH]; intros [|y b] H; simpl in H; try discriminate; [reflexivity|].
+    apply andb_true_iff in H. destruct H as [H1 H2]. f_equal; [lia|apply IH; exact H2].
+  Qed.
+
+  Lemma trailer_check r : list_eqb (skipn (length r - N.to_nat warc_trailer_len) r) warc_trailer = true ->
+    ends_with_trailer r.
+  Proof.
+    intros H. apply list_eqb_eq in H. exists (firstn (length r - N.to_nat warc_trailer_len) r).
+    rewrite <- H. symmetry. apply firstn_skipn.
+  Qed.
+
+  (* one Read: a returned record and the new overhang are exactly the bytes that
+     were taken from the old overhang and the source, in order; the record ends
+     in CR LF CR LF; end of file is reported only when nothing at all is left *)
+  Lemma warc_read_conserve fuel rs ov : rinv rs ->
+    match warc_read fuel rs ov with
+    | RecOk _ rec rs' ov' => rec ++ ov' ++ rem rs' = ov ++ rem rs /\ rinv rs' /\ ends_with_trailer rec
+    | RecEnd _ => ov = [] /\ rem rs = []
+    | RecErr _ _ => True
+    end.
+  Proof.
+    intros Hi. unfold WarcDefs.warc_read.
+    pose proof (hline_conserve fuel rs ov 0 0 Hi) as HL.
+    destruct (hline fuel rs ov 0 0) as [line c out1 rs1|rs1|e]; auto.
+    destruct HL as [HL1 HL2].
+    destruct (negb (list_eqb line warc_version)); [exact I|].
+    pose proof (header_conserve fuel fuel rs1 out1 c line false 0 HL2) as HH.
+    destruct (header_loop fuel fuel rs1 out1 c line false 0) as [rs2 out2 c2 len|e]; auto.
+    destruct HH as [HH1 HH2].
+    set (total := (Z.of_nat c2 + len mod size_max + Z.of_N warc_trailer_len) mod size_max).
+    destruct (total <? Z.of_nat (length out2)) eqn:Elt.
+    - destruct (list_eqb (skipn (length (firstn (Z.to_nat total) out2) - N.to_nat warc_trailer_len) (firstn (Z.to_nat total) out2)) warc_trailer) eqn:Et; [|exact I].
+      split; [|split; [exact HH2|apply trailer_check; exact Et]].
+      rewrite app_assoc, firstn_skipn. rewrite HH1. exact HL1.
+    - destruct (total >=? alloc_limit); [exact I|].
+      pose proof (read_exact_conserve fuel rs2 out2 total HH2 ltac:(lia)) as HX.
+      destruct (read_exact fuel rs2 out2 total) as [[rec rs3]|e]; auto.
+      destruct HX as [HX1 HX2].
+      destruct (list_eqb (skipn (length rec - N.to_nat warc_trailer_len) rec) warc_trailer) eqn:Et; [|exact I].
+      split; [|split; [exact HX2|apply trailer_check; exact Et]].
+      simpl. rewrite HX1, HH1. exact HL1.
+  Qed.
+
+  (* C17: a successful read of the whole stream accounts for every byte: the
+     returned records, concatenated, ARE the stream (no byte dropped, none
+     invented, no resynchronisation), and each ends in CR LF CR LF.  Hence a
+     stream that is not a concatenation of such records -- truncated anywhere but
+     at a record boundary, garbage between records -- cannot be read successfully *)
+  Theorem success_is_exact_proof : forall n fuel rs ov recs, rinv rs ->
+    warc_read_all n fuel rs ov = AllOk recs ->
+    concat recs = ov ++ rem rs /\ Forall ends_with_trailer recs.
+  Proof.
+    induction n as [|n IH]; intros fuel rs ov recs Hi H; [discriminate|].
+    cbn [WarcDefs.warc_read_all] in H.
+    pose proof (warc_read_conserve fuel rs ov Hi) as HR.
+    destruct (warc_read fuel rs ov) as [rec rs' ov'| |e]; try discriminate.
+    - destruct HR as [H1 [H2 H3]].
+      destruct (warc_read_all n fuel rs' ov') as [l|e l] eqn:EA; try discriminate.
+      inversion H; subst recs.
+      destruct (IH fuel rs' ov' l H2 EA) as [IH1 IH2].
+      split; [|constructor; assumption].
+      simpl. rewrite IH1. exact H1.
+    - inversion H; subst recs. destruct HR as [H1 H2]. subst ov. rewrite H2. split; [reflexivity|constructor].
+  Qed.
 End WarcProofs.
+
+(* ------------------------------------------------------------ the real byte source
+   WARCReader reads through util::ReadCompressed; for plain input its C15 model
+   (magic detection of the first kMagicSize bytes, then the pipe fragments)
+   satisfies the source contract used above. *)
+Definition rc_rem (s : rstate unit unit) : list Z :=
+  match r_rd _ _ s with
+  | RPlain => fbytes (r_file _ _ s)
+  | RHeader buf => buf ++ fbytes (r_file _ _ s)
+  | _ => []
+  end.
+Definition rc_inv (s : rstate unit unit) : Prop := pgood unit unit s (rc_rem s).
+
+Lemma pgood_rem s rest : pgood unit unit s rest -> rest = rc_rem s.
+Proof.
+  unfold pgood, rc_rem. destruct (r_rd _ _ s); intros H.
+  - destruct H as [_ H]. exact H.
+  - symmetry. exact H.
+  - destruct H as [_ H]. symmetry. exact H.
+  - contradiction.
+Qed.
+
+Lemma rc_read_contract : rread_contract (rstate unit unit) rc_read rc_rem rc_inv.
+Proof.
+  intros s n Hi Hn. unfold rc_inv in Hi.
+  destruct (rd_plain unit unit no_codec_new no_codec_call 1 s (rc_rem s) n Hi Hn)
+    as [out [s' [rest' [HR [Hp [Hg' [He Hl]]]]]]].
+  exists out, s'. unfold rc_read. rewrite HR.
+  pose proof (pgood_rem s' rest' Hg') as E. subst rest'.
+  repeat split; auto.
+Qed.
+
+(* reading a WARC file of well-formed records that arrives in ANY fragments
+   through ReadCompressed yields exactly the records *)
+Theorem warc_file_exact_proof : forall (f : frags) recs n fuel,
+  Forall wf_record recs -> fbytes f = concat recs ->
+  detect_magic (takeN kMagicSize (concat recs)) = None ->
+  (length recs < n)%nat -> (length (concat recs) + 1 < fuel)%nat ->
+  warc_file n fuel f = AllOk recs.
+Proof.
+  intros f recs n fuel Hwf Hf Hd Hn Hfu. unfold warc_file, rc_open.
+  rewrite read_factory_eq. unfold fact_header.
+  change (len (@nil Z) <? kMagicSize)%N with true. cbv iota.
+  change (kMagicSize - len (@nil Z))%N with kMagicSize.
+  destruct (read_or_eof f kMagicSize) as [got f1] eqn:ER.
+  apply read_or_eof_spec in ER. destruct ER as [Eg Ef]. rewrite Hf in Eg, Ef.
+  simpl app. rewrite <- Eg in Hd.
+  destruct got as [|b got].
+  - (* empty file *)
+    assert (L : len (takeN kMagicSize (concat recs)) = 0%N) by (rewrite <- Eg; reflexivity).
+    rewrite len_takeN in L.
+    assert (Hc : concat recs = []).
+    { apply len_zero_nil. assert (0 < kMagicSize)%N by (vm_compute; reflexivity). lia. }
+    set (s0 := mkr unit unit f1 tt RComplete).
+    assert (Hi0 : rc_inv s0).
+    { unfold rc_inv, pgood, rc_rem, s0. simpl. split; [|reflexivity].
+      rewrite Ef, Hc. apply dropN_all. rewrite len_nil. lia. }
+    assert (Hr0 : rc_rem s0 = concat recs) by (unfold rc_rem, s0; simpl; symmetry; exact Hc).
+    exact (records_exact_proof (rstate unit unit) rc_read rc_rem rc_inv rc_read_contract recs s0 n fuel Hi0 Hwf Hr0 Hn Hfu).
+  - rewrite Hd.
+    set (s0 := mkr unit unit f1 tt (RHeader (b :: got))).
+    assert (Hi0 : rc_inv s0).
+    { unfold rc_inv, pgood, rc_rem, s0. simpl. split; [discriminate|reflexivity]. }
+    assert (Hr0 : rc_rem s0 = concat recs).
+    { unfold rc_rem, s0. simpl. change (b :: got ++ fbytes f1) with ((b :: got) ++ fbytes f1).
+      rewrite Eg, Ef. apply takeN_dropN. }
+    exact (records_exact_proof (rstate unit unit) rc_read rc_rem rc_inv rc_read_contract recs s0 n fuel Hi0 Hwf Hr0 Hn Hfu).
+Qed.
